@@ -198,6 +198,7 @@ class CaseHooks(UnrollMixin, EBB3Hooks):
         self.unroll = False       # exact unrolling of while loops whose test the case decides
         self.uncountable = False
         self.bytes_used = None    # a reply used as text while still bytes
+        self.arrive = None        # thorough tier: set of read ordinals at which a line arrives
 
     def loop(self, interp, node, st):
         return self.unroll_loop(interp, node, st)
@@ -253,7 +254,12 @@ class CaseHooks(UnrollMixin, EBB3Hooks):
                             assign[at] = Sym.const(self.length)
                     else:
                         nl = self.name_len()
-                        assign[at] = Sym.const(0 if empty else (nl + 3 if longer else nl))
+                        emp = empty
+                        if self.arrive is not None:
+                            import re
+                            m = re.findall(r'reply#(\d+)', txt)
+                            emp = not (m and int(m[-1]) in self.arrive)
+                        assign[at] = Sym.const(0 if emp else (nl + 3 if longer else nl))
                 else:
                     return None
             val = cond.a.subs(assign)
@@ -357,6 +363,44 @@ def check_tables(ck, eng, name):
     return rows
 
 
+def check_delays(ck, eng, name, bound=RETRY_BOUND):
+    """Thorough tier: the reply arrives after k empty reads.  Within the budget (k <= 25) the
+    request succeeds having performed k+1 reads; beyond it the request times out after 26."""
+    fn = eng.method(name)
+    q = fn.qualname
+    for kind in REQUEST_KINDS:
+        for k in (0, 1, 24, 25, 26):
+            hk = CaseHooks(eng, fn, kind, kind[1][-1], REPLY_CASES[1] if k <= bound else REPLY_CASES[0])
+            hk.unroll = True
+            hk.arrive = frozenset([k]) if k <= bound else frozenset()
+            try:
+                outs = eng.run(name, OK, overrides={fn.params[1]: param_value(fn)}, hooks=hk)
+            except Unbounded as exc:
+                ck.ob('C05-D2-retry-bound', '%s[delay %d]' % (q, k), False,
+                      '%s: the loop at line %s never gives up' % (q, exc.args[0]), fn.loc(),
+                      key='%s::retry-bound' % q)
+                continue
+            if hk.uncountable:
+                raise AnalysisError('%s: delay schedule not decided' % q)
+            want_reads = k + 1 if k <= bound else bound + 1
+            inst = '%s[%s request, reply after %d empty reads]' % (q, kind[0], k)
+            for o in outs:
+                n_reads = sum(1 for e in o.state.effects
+                              if is_port_call(e, ('readline', 'read', 'read_until')))
+                cls = 'raise' if o.kind == 'raise' else classify_ret(o.value)
+                _p, err_set = ts_of_state(o.state)
+                if k <= bound:
+                    good = (cls == ('true' if name == 'command' else 'str')) and not err_set
+                else:
+                    good = (cls == ('false' if name == 'command' else 'none')) and err_set
+                ck.ob('C05-D2-delayed-reply', inst, n_reads == want_reads and good,
+                      '%s performs %d read(s) and ends with a %s value (%s) when the reply comes '
+                      'after %d empty reads; expected %d reads and %s'
+                      % (q, n_reads, cls, 'error recorded' if err_set else 'no error', k,
+                         want_reads, 'success' if k <= bound else 'a recorded timeout'),
+                      fn.loc(), key='%s::delayed-reply' % q)
+
+
 # ---------------------------------------------------------------------------- D5 / D6 / D7
 def exemption_in_path(path):
     """Literal names of a reboot-style exemption test assumed true on the path, else None."""
@@ -447,7 +491,39 @@ def summaries_consistent(ck, eng):
                   key='%s::contract:%s:%s' % (fn.qualname, s.ret, s.err_set))
 
 
-def analyse(ck, prog, fixture=False):
+def handler_sets(ck, prog, eng):
+    """Sibling agreement: the three transport primitives must contain the same exception classes
+    around their port I/O (they are three implementations of one fault-handling contract)."""
+    from ..interp import exc_canon
+    sets = {}
+    for name in PRIMS + ('query_statusbyte',):
+        fn = eng.method(name)
+        it = Interp(prog)
+        it.stack.append(fn)
+        caught = set()
+        for node in ast.walk(fn.node):
+            if isinstance(node, ast.Try) and contains_call_attr(node, ('write', 'readline')):
+                for h in node.handlers:
+                    if h.type is None:
+                        caught.add('BaseException')
+                        continue
+                    for t in it.handler_types(h.type):
+                        caught.add(exc_canon(it.exc_name(t)))
+        from ..interp import exc_is_subclass
+        sets[name] = {c for c in caught if not any(
+            d != c and exc_is_subclass(c, d) for d in caught)}
+    ck.saw('exception_classes_contained', {k: sorted(v) for k, v in sets.items()})
+    ref = sets['command']
+    for name, got in sets.items():
+        fn = eng.method(name)
+        ck.ob('C05-D5-sibling-handlers', fn.qualname, got == ref,
+              '%s contains %s around its port I/O while command contains %s: the primitives '
+              'disagree on which I/O exceptions are contained (a fault of the missing class '
+              'escapes from this one only)' % (fn.qualname, sorted(got), sorted(ref)), fn.loc(),
+              key='%s::handler-set' % fn.qualname)
+
+
+def analyse(ck, prog, fixture=False, tier='quick'):
     base, cls, family = most_derived(prog)
     eng = Engine(prog, cls)
     methods = public_methods(cls)
@@ -464,7 +540,11 @@ def analyse(ck, prog, fixture=False):
         check_framing(ck, eng, name)
         check_retry(ck, eng, name)
         check_tables(ck, eng, name)
+        if tier == 'thorough' and not fixture:
+            check_delays(ck, eng, name)
     summaries_consistent(ck, eng)
+    if not fixture:
+        handler_sets(ck, prog, eng)
     n_sites = check_faults(ck, eng, requests)
     ck.floor('call sites consuming query results', n_sites, 1 if fixture else 9)
     ck.extra['engine_stats'] = eng.stats
@@ -489,7 +569,7 @@ def run(ck, prog, tier):
                       'payloads) and non-ASCII bytes are outside the fault classes of the statement',
                       'attribution of replies over whole histories follows from the per-call '
                       'framing rules against a conforming device (device model not analysed)']
-    analyse(ck, prog)
+    analyse(ck, prog, tier=tier)
     fx = os.path.join(VERIF, 'fixtures', 'c05_bad')
     ck2 = Check('C05', tier, fx, quiet=True)
     try:
